@@ -7,3 +7,16 @@ Theorem C08_member_oracle : forall (Vr : Type) (E : EqDec Vr) (G : cfg Vr) (w : 
   cfg_member G w = true <-> LangG G w.
 Proof. exact (@cfg_member_spec). Qed.
 Print Assumptions C08_member_oracle.
+
+From PFL Require Import Model.Cfg Proofs.CfgSymbols Proofs.CfgCyk.
+(* the empty word *)
+Theorem C08_generate_epsilon : forall (Vr : Type) (E : EqDec Vr) (G : cfg Vr),
+  generate_epsilon G = true <-> LangG G nil.
+Proof. exact (@generate_epsilon_spec). Qed.
+Print Assumptions C08_generate_epsilon.
+
+(* the CYK table on a grammar in Chomsky normal form, non-empty words *)
+Theorem C08_cyk : forall (X : Type) (E : EqDec X) (G : cfg X) (w : list N),
+  is_normal_form G = true -> w <> nil -> (cyk G w = true <-> LangG G w).
+Proof. exact (@cyk_spec). Qed.
+Print Assumptions C08_cyk.
